@@ -12,6 +12,16 @@ import TsV.Lemmas.Outcome
 namespace TsV.C09
 open TsV TsV.Pipeline TsV.Generate
 
+/-- what is printed for one element is in what is printed for the list (used for Kotlin's import lines) -/
+theorem infix_flatMap_of_mem {α β} (f : α → List β) : ∀ (l : List α) (x : α), x ∈ l → f x <:+: l.flatMap f
+  | [], _, h => by simp at h
+  | y :: t, x, h => by
+    simp only [List.mem_cons] at h
+    simp only [List.flatMap_cons]
+    rcases h with rfl | h
+    · exact (List.prefix_append _ _).isInfix
+    · exact (infix_flatMap_of_mem f t x h).trans (List.suffix_append _ _).isInfix
+
 /-! ## 1. `check_type` on leaves -/
 
 /-- an identifier position of a type expression that names a user type or a generic parameter -/
